@@ -89,6 +89,42 @@ def staff_count_short(spec):
     return False
 
 
+def used_numbers(spec):
+    """Per part: the voice numbers used by notes and rests, the staff numbers used by notes, rests, clefs and
+    directions (a missing staff is staff 1) - what the documentation of the modes calls the part's voices / staves."""
+    uv, us = [], []
+    for ps in spec["parts"]:
+        uv.append(sorted(set(n["voice"] for n in ps["notes"])))
+        us.append(sorted(set([eff(n["staff"]) for n in ps["notes"]] + [c[1] for c in ps["clefs"]] + [eff(d[4]) for d in ps.get("c15_dirs", [])])))
+    return uv, us
+
+
+def zero_based_clash(spec):
+    """voice mode shifts the voices of a part by the sum of the largest voice numbers of the parts before it;
+    that keeps inputs apart only when voice numbers start at 1."""
+    uv, _ = used_numbers(spec)
+    new, off = [], 0
+    for k, v in enumerate(uv):
+        new.append(set(x + off for x in v))
+        off += max(v) if v else 1
+    return any(new[i] & new[j] for i in range(len(new)) for j in range(i + 1, len(new)))
+
+
+def auto_ranges_overlap(spec):
+    """auto mode numbers the voices of a part from 4 * (staves of the parts before it) + 1 upwards; a part with
+    more voices than four per staff reaches into the range of the next one."""
+    uv, us = used_numbers(spec)
+    lo, before = [], 0
+    for k in range(len(uv)):
+        lo.append(4 * before)
+        before += len(us[k])
+    sound = [set(n["voice"] for n in sounding(ps)) for ps in spec["parts"]]
+    new = []
+    for k in range(len(uv)):
+        new.append(set(lo[k] + 1 + uv[k].index(v) for v in sound[k]))
+    return any(new[i] & new[j] for i in range(len(new)) for j in range(i + 1, len(new)))
+
+
 def has_silent_part(spec):
     return any(not heads(ps) for ps in spec["parts"])
 
@@ -230,6 +266,26 @@ def oracle_merge(spec):
     o.cls("tacet-group", tacet_group(spec))
     o.cls("auto-tables-complete", not auto_lookup_missing(spec))
     o.cls("auto-judged", mode == "auto" and not auto_lookup_missing(spec))
+    # shapes added by the generator audit (docs/audit/C15.md)
+    o.cls("reassign-arg-" + spec.get("reassign_arg", "keyword"))
+    o.cls("voice-zero", any(x["voice"] == 0 for ps in specs for x in ps["notes"]))
+    o.cls("voice-zero-in-two-parts", sum(1 for ps in specs if any(x["voice"] == 0 for x in ps["notes"])) >= 2)
+    o.cls("zero-based-voices-clash-in-voice-mode", mode == "voice" and zero_based_clash(spec))
+    o.cls("four-or-more-voices-in-a-part", any(len(set(x["voice"] for x in ps["notes"])) >= 4 for ps in specs))
+    o.cls("more-than-four-voices-per-staff", any(len(uv) > 4 * len(us) for uv, us in zip(*used_numbers(spec))))
+    o.cls("auto-voice-ranges-overlap", mode == "auto" and auto_ranges_overlap(spec))
+    o.cls("staff-three", any(eff(x["staff"]) == 3 for ps in specs for x in ps["notes"]))
+    o.cls("staff-gap-or-not-from-one", any(ps["notes"] and sorted(set(eff(x["staff"]) for x in ps["notes"])) != list(range(1, len(set(eff(x["staff"]) for x in ps["notes"])) + 1)) for ps in specs))
+    o.cls("empty-part", any(not ps["notes"] for ps in specs))
+    o.cls("empty-first-part", not specs[0]["notes"])
+    o.cls("later-part-measure-numbers-differ", any([m[2] for m in ps["measures"]] != [m[2] for m in specs[0]["measures"]] for ps in specs[1:]))
+    o.cls("divisions-restated", any(ps.get("c15_restate_divs") is not None for ps in specs))
+    o.cls("pedal-direction", any(d[2] == "pedal" for ps in specs for d in ps.get("c15_dirs", [])))
+    for kind in sorted(M.EXTRA_NAME):
+        o.cls("extra-" + kind, any(x[0] == kind for ps in specs for x in ps.get("c15_extra", [])))
+    o.cls("structural-extra-in-later-part", any(x[0] in M.EXTRA_STRUCTURAL for ps in specs[1:] for x in ps.get("c15_extra", [])))
+    o.cls("structural-extra-in-first-part", any(x[0] in M.EXTRA_STRUCTURAL for x in specs[0].get("c15_extra", [])))
+    o.cls("non-structural-extra-in-later-part", any(x[0] not in M.EXTRA_STRUCTURAL for ps in specs[1:] for x in ps.get("c15_extra", [])))
 
     # ---- score-level note array on a fresh, identical build ---------------------------------
     expected = reference_sounding(spec, L)
@@ -253,8 +309,9 @@ def oracle_merge(spec):
 
     # ---- the merge -----------------------------------------------------------------------------
     container, inputs = M.build(spec)
+    args, kwargs = M.call_args(spec)
     try:
-        merged = call(S.merge_parts, container, reassign=mode)
+        merged = call(S.merge_parts, container, *args, **kwargs)
     except SutRaised as e:
         o.add(e.kind, text=e.text, mode=mode)
         return o
@@ -333,8 +390,8 @@ def oracle_merge(spec):
 
     # ---- structure from the first part only ------------------------------------------------------
     p0, m0 = specs[0], mult[0]
-    exp_meas = sorted((m[0] * m0, m[1] * m0, m[2]) for m in p0["measures"])
-    got_meas = sorted((m.start.t, m.end.t, m.number) for m in merged.iter_all(S.Measure))
+    exp_meas = sorted((m[0] * m0, m[1] * m0, m[2], m[3] or "") for m in p0["measures"])
+    got_meas = sorted((m.start.t, m.end.t, m.number, m.name or "") for m in merged.iter_all(S.Measure))
     if got_meas != exp_meas:
         o.add("measures-not-first-part-rescaled", got=got_meas[:6], expected=exp_meas[:6], mode=mode)
     exp_ts = sorted((t * m0, b, bt) for (t, b, bt) in p0["timesigs"])
@@ -408,6 +465,27 @@ def oracle_merge(spec):
             got_dir[(type(x).__name__, x.text, x.start.t, -1 if x.end is None else x.end.t)] += 1
     if got_dir != exp_dir:
         o.add("directions-differ", missing=sorted((exp_dir - got_dir).elements())[:3], extra=sorted((got_dir - exp_dir).elements())[:3])
+
+    # ---- further elements: Barline / Page / System from the first part only, the others from every part ----
+    exp_x = Counter()
+    for k, ps in enumerate(specs):
+        for (kind, t, end, a, b) in ps.get("c15_extra", []):
+            if kind in M.EXTRA_STRUCTURAL and k > 0:
+                continue
+            content = {"barline": a, "page": a, "system": a, "chordsymbol": (a, b), "cadence": a, "octaveshift": (a, b),
+                       "beam": tuple(a) if kind == "beam" else None}[kind]
+            exp_x[(M.EXTRA_NAME[kind], content, t * mult[k], -1 if end is None else end * mult[k])] += 1
+    got_x = Counter()
+    for cls in (S.Barline, S.Page, S.System, S.ChordSymbol, S.Cadence, S.OctaveShiftDirection, S.Beam):
+        for x in merged.iter_all(cls):
+            got_x[M.extra_key(x)] += 1
+    for name in sorted(set(k[0] for k in list(exp_x) + list(got_x))):
+        e_ = Counter({k: v for k, v in exp_x.items() if k[0] == name})
+        g_ = Counter({k: v for k, v in got_x.items() if k[0] == name})
+        if e_ != g_:
+            what = "first-part-rescaled" if name in ("Barline", "Page", "System") else "every-part-rescaled"
+            o.add("%s-elements-not-%s" % (name.lower(), what), missing=sorted((e_ - g_).elements(), key=repr)[:3],
+                  extra=sorted((g_ - e_).elements(), key=repr)[:3], mode=mode)
 
     # ---- note array of the merged part ------------------------------------------------------------
     na = call(merged.note_array, include_staff=True)
